@@ -29,11 +29,11 @@ pub proof fn lemma_g_nfa_wf(n: Nfa)
 /// the index-addressed match transitions of the members of a closure key are what the closure fires
 pub proof fn lemma_mt_fires(n: Nfa, ss: Seq<StateID>, key: Set<StateID>, a: int)
     requires sub_wf(n), n_off(n) == 0, has_state(n, a), key_is(g_nfa(n), key, a), forall|x: StateID| #[trigger] key.contains(x) <==> ss.contains(x)
-    ensures forall|cc: CharClassID, t: StateID| #[trigger] mt_from(n, ss, cc, t) <==> fires(g_nfa(n), a, cc, t)
+    ensures forall|cc: CharClassID, t: StateID| #[trigger] mt_from(n, ss, cc, t) <==> g_fires(g_nfa(n), a, cc, t)
 {
-    reveal(fires);
+    reveal(g_fires);
     let g = g_nfa(n);
-    assert forall|cc: CharClassID, t: StateID| #[trigger] mt_from(n, ss, cc, t) <==> fires(g, a, cc, t) by {
+    assert forall|cc: CharClassID, t: StateID| #[trigger] mt_from(n, ss, cc, t) <==> g_fires(g, a, cc, t) by {
         if mt_from(n, ss, cc, t) {
             let (i, k) = choose|i: int, k: int| #[trigger] mt_at(n, ss, i, k, cc, t);
             assert(ss.contains(ss[i]));
@@ -42,7 +42,7 @@ pub proof fn lemma_mt_fires(n: Nfa, ss: Seq<StateID>, key: Set<StateID>, a: int)
             assert(tr_of(n, ss[i].0 as int, cc, t));
             assert((g.reach)(a, ss[i].0 as int) && (g.tr)(ss[i].0 as int, cc, t));
         }
-        if fires(g, a, cc, t) {
+        if g_fires(g, a, cc, t) {
             let s = choose|s: int| (g.reach)(a, s) && #[trigger] (g.tr)(s, cc, t);
             let k = choose|k: int| #[trigger] tr_at(n, s, k, cc, t);
             assert(key.contains(StateID(s as u32)));
